@@ -2,7 +2,7 @@
    PARTIAL by nature: the quantifier over interleavings is discharged in the model, where a server is a
    family of per-connection machines; that the Rust tasks share no state is supported by inspection
    and by the concurrent exploration of the harness, not by this proof. *)
-From TM Require Import Base Frame Pdu RtuCodec Framed Client Server AcceptProofs.
+From TM Require Import Base Frame Pdu RtuCodec Framed Client Server AcceptProofs ServerTrace.
 
 (* after any schedule (global arrival order of per-connection events) a connection has received
    exactly its own events in its own order *)
@@ -21,3 +21,20 @@ Theorem C18_factory_once : forall evs,
   forallb (fun x => negb (stops x)) evs = true ->
   length (fst (serve evs)) = length (filter (fun e => match e with AConn (SetupService _) => true | _ => false end) evs).
 Proof. exact factory_once_per_connection. Qed.
+
+(* the same with every connection on a transport of its own that may accept the replies in pieces, stay pending or fail
+   (write script [wqs c], flush script [fqs c]): the other connections' traffic, however interleaved, does not change c's trace ... *)
+Theorem C18_noninterference_any_transport : forall p m svc wqs fqs s1 s2 c,
+  events_of c s1 = events_of c s2 -> conn_trace_w p m svc wqs fqs s1 c = conn_trace_w p m svc wqs fqs s2 c.
+Proof. exact noninterference_w. Qed.
+(* ... and that trace has the C07 shape for ARBITRARY bytes on every connection: each invocation of c's own service instance is
+   followed at once by exactly one reply frame encoded under that request's header (or by nothing when the service declines), the
+   last one possibly cut short by a failing write -- so what c receives is its own replies in its own request order *)
+Theorem C18_every_connection_trace : forall p m svc wqs fqs s c, Trace p m (svc c) (conn_trace_w p m svc wqs fqs s c).
+Proof. exact every_connection_trace. Qed.
+Theorem C18_every_connection_receives_reply_frames : forall p m svc wqs fqs s c,
+  exists fs last, is_prefix (written (conn_trace_w p m svc wqs fqs s c)) (concat fs ++ last)
+    /\ (forall f, In f (fs ++ [last]) -> f = [] \/ exists h rr, server_enc p m h rr = Val f).
+Proof. exact every_connection_written. Qed.
+Theorem C18_default_transport : forall p m svc s c, conn_trace_w p m svc (fun _ => []) (fun _ => []) s c = conn_trace p m svc s c.
+Proof. exact conn_trace_w_default. Qed.
